@@ -8,7 +8,7 @@
  * Compared in the four modes through is_*_email(x@D, true), through eav_is_email with a mask that allows
  * everything / nothing, and through is_special_domain / is_tld directly.
  */
-#include "../mc/mc.h"
+#include "corpus.h"
 #include "../ref/ref_idn.h"
 #include "../ref/ref_tld.h"
 #include <eav.h>
@@ -294,6 +294,11 @@ static void neigh_shard(long shard, void *arg) {
 }
 #endif
 
+/* the label-depth corpus (shared with the other checks): 24 suffixes behind every sequence of 0-4 labels over 6 shapes, and behind 5..126 one-letter labels */
+static int C_DEPTHC;
+static void depth_emit(const unsigned char *s, size_t n, void *arg) { (void)arg; if (n > 2 && s[0] == 'x' && s[1] == '@') { check_class("depth", (const char *)s + 2, n - 2); MC_ADD(C_DEPTHC, 1); } }
+static void depth_shard(long shard, void *arg) { (void)arg; corpus_run(CP_DEPTH, shard, depth_emit, NULL); }
+
 static int do_replay(void) {
     mc_replay_t r; if (mc_load_replay(mc_replay, &r)) return 2;
     mc_replay_hit = 0; g_all_lp = 1;
@@ -315,7 +320,7 @@ int main(int argc, char **argv) {
 #endif
     C_CASES = mc_counter("domains_classified"); C_SPECIAL = mc_counter("expected_special"); C_LISTED = mc_counter("expected_listed_class");
     C_UNLISTED = mc_counter("expected_invalid_tld"); C_NOTFQDN = mc_counter("expected_not_fqdn"); C_SKIP6531 = mc_counter("mode6531_idn_error_on_ascii_skipped");
-    C_ULABEL = mc_counter("u_label_cases"); C_LIBROWS = mc_counter("library_table_rows_walked"); C_MAPPED = mc_counter("idna_mapped_spellings");
+    C_ULABEL = mc_counter("u_label_cases"); C_DEPTHC = mc_counter("depth_corpus_domains"); C_LIBROWS = mc_counter("library_table_rows_walked"); C_MAPPED = mc_counter("idna_mapped_spellings");
     if (rt_load()) return 2;
     char p[1024]; snprintf(p, sizeof p, "%s/data/raw.csv", rt_repo()); if (rt_read_csv(p, &RAW, 1)) return 2;
     for (int m = 0; m < 4; m++) {
@@ -333,5 +338,6 @@ int main(int argc, char **argv) {
     mc_parallel("reserved: 8 suffixes x preceding label length 0..63 x case patterns x 1-3 labels", 8 * 64, res_shard, NULL);
     mc_parallel("neighbours: one-edit neighbours of the 8 suffixes x 9 prefixes x 2 cases", 8, neigh_shard, NULL);
 #endif
+    mc_parallel("depth: 24 suffixes behind every sequence of 0-4 labels over {a,test,example,com,xn--p1ai,invalid} and behind 5..126 one-letter labels", corpus_shards(CP_DEPTH), depth_shard, NULL);
     return mc_finish();
 }
